@@ -2138,6 +2138,10 @@ def run_redirect(case) -> CaseResult:
         if stdin_text and len(stdin_text) > 70000:
             labels.add('big-stdin')
 
+            if len(ends.raw(stdin_text)) > case['swin'] + 65536 + \
+                    case['bufsize']:
+                labels.add('big-stdin:writing-paused')
+
         if case.get('late'):
             labels.add('late-redirect')
             late = {k: rkw.pop(k) for k in ('stdout', 'stderr') if k in rkw}
@@ -2342,10 +2346,13 @@ def redirect_strategy(tier: str):
             data = draw(text)
 
             if kin in ('file', 'path', 'stream') and draw(
-                    st.integers(0, 19 if tier == 'quick' else 7)) == 0:
+                    st.integers(0, 9 if tier == 'quick' else 7)) == 0:
                 # enough to fill the channel's 64 KiB write buffer
+                # (and, past the peer's window, to have writing paused
+                # part way through the file)
                 data = (data + 'ab\n0') * (75000 // (len(data) + 4) + 1)
-                swin, spkt = 16384, 4096
+                swin, spkt = draw(pick([(16384, 4096), (2048, 1024),
+                                        (256, 256)]))
                 big = True
 
             sin = {'kind': kin, 'data': '' if kin == 'devnull' else data}
@@ -2997,10 +3004,12 @@ FAMILIES = [
            required={'quick': ['data>window', 'late-redirect', 'proc-to-proc',
                                'no-recv_eof', 'no-send_eof', 'stdout-stream',
                                'stdout-pipe', 'stdout-file', 'stdin-pipe',
-                               'stdin-file', 'stdin-stream'],
+                               'stdin-file', 'stdin-stream',
+                               'big-stdin:writing-paused'],
                      'thorough': ['data>window', 'late-redirect',
                                   'proc-to-proc', 'no-recv_eof',
-                                  'no-send_eof', 'big-stdin'] +
+                                  'no-send_eof', 'big-stdin',
+                                  'big-stdin:writing-paused'] +
                      ['stdout-' + k for k in sorted(set(TGT_KINDS))] +
                      ['stdin-' + k for k in SRC_KINDS]},
            timeout_is_violation=True, case_timeout=120),
